@@ -137,8 +137,8 @@ impl Check for C20 {
     }
     fn generate(r: &mut Rng, tier: Tier) -> Case {
         let mut cfg = gen::draw_cfg(r, tier);
-        cfg.max_extra_nodes = cfg.max_extra_nodes.min(if cfg.large { 12 } else { 4 });
-        cfg.max_edges = cfg.max_edges.min(if cfg.large { 6 } else { 3 });
+        cfg.max_extra_nodes = cfg.max_extra_nodes.min(if cfg.huge { 140 } else if cfg.large { 12 } else { 4 });
+        cfg.max_edges = cfg.max_edges.min(if cfg.huge { 70 } else if cfg.large { 6 } else { 3 });
         cfg.max_arity = cfg.max_arity.min(3);
         let (f, g) = gen::gen_pair(r, &cfg);
         let (f, g) = if r.chance(1, 10) { gen::make_mismatch(r, &f, &g).unwrap_or((f, g)) } else { (f, g) };
@@ -184,6 +184,8 @@ impl Check for C20 {
         fp.add(crate::rng::hash_str(&format!("{:?}{:?}{:?}{:?}", c.spec, c.optic.spec, c.arrow.w, c.arrow.x)));
         ex.workload_fp = fp.0;
         ex.nontrivial = c.f.n() + c.d.n() > 0;
+        ex.probe_if(c.f.n() >= 64 || c.f.m() >= 64 || c.f.s.len() >= 64 || c.f.t.len() >= 64, "size_64_or_more");
+        ex.probe_if(c.f.n() >= 256 || c.f.m() >= 256 || c.f.s.len() >= 256 || c.f.t.len() >= 256, "size_256_or_more");
         // every node written at most once (no write races between operations of one batch) and no
         // dependency cycle; nodes that are read but never written are allowed here
         let single_writer = {
